@@ -30,6 +30,14 @@ TEXT = {
         level="Proof (partial): C10_unique (names stay unique for every template and assignment), closed instances C10_zero / C10_two; the state-passing model mirrors fillEllipsis one to one and is tied to the code by all small templates (exhaustive enumeration) and random larger ones; C10_refines (equality with a declarative expander) is not proved yet.",
         note=BASE_NOTE,
         technique="Coq model mirroring the expander + exhaustive small-template correspondence + structural monitors"),
+    "C11": dict(
+        level="Proof: C11_histories (address-level model Heap.v: for every sequence of constructor, producer, accessor calls and caller writes through every address the caller ever held, every pooled object is observed as at creation; invariant by induction), C11_exposure_refuted (the same model with an exposing accessor violates it: the statement is not vacuous), C11_no_exposure / C11_no_retention / C11_no_writes_to_shared (the policy holds of the source: effect summary regenerated by the translator on every run), C11_pool_grows (pure model). Correspondence: mutation histories with scribbling over every shared slice, and a creation-vs-end monitor.",
+        note=BASE_NOTE + " The effect analysis is syntactic and conservative (unknown forms fail the obligation).",
+        technique="Coq invariant proof over an address-level heap model + translator-generated effect summary + mutation histories"),
+    "C17": dict(
+        level="Proof (partial): C17_footprints (from the regenerated effect summary: no package-level variables, no goroutines, writes only through call-local work objects that the API never hands out), C17_drf and C17_results (Conc.v: for calls with such footprints no interleaving contains conflicting accesses and every call reads what it reads alone; induction over the schedule). The runtime half is decided by the -race driver: goroutines printing, encoding, listing, filling shared items/messages and running both parsers, results compared with the calls made alone.",
+        note=BASE_NOTE + " Partial: the Go memory model, the runtime and the standard library's own thread safety cannot be exhibited by the Gallina model; the race detector observes them on the executions run.",
+        technique="Coq proof over footprints from the translator's effect summary + go -race stress driver with sequential oracle"),
     "C12": dict(
         level="Proof: C12_leaf_exact (every stored element is the mathematical value of the argument, within the item's range; floats finite and rounded by the modelled conversion), C12_int_no_wrap / C12_uint_no_wrap (no wrap-around for any Go integer type), C12_leaf_refused (every refusal has a documented reason), C12_float32_finite, C12_ascii, C12_message, C12_fill. Correspondence suite C12: the full boundary grid, plus an independent big-integer oracle on the Go side.",
         note=BASE_NOTE + " float64->float32 and int->float64 conversions are modelled in Gallina (round to nearest even) and validated against Go on the boundary grid and random values.",
